@@ -55,13 +55,13 @@ def _eval_named(name):
 def main():
     mode = sys.argv[1]
     os.makedirs(SEEDED, exist_ok=True)
-    if mode in ("import", "import2", "import3"):
+    if mode in ("import", "import2", "import3", "import4"):
         for pid in sys.argv[2:]:
             for k in ("1", "2", "3"):
-                src = {"import": f"/tmp/seed/out_{pid}", "import2": f"/tmp/seed/out2_{pid}", "import3": f"/tmp/seed/out3_{pid}"}[mode]
+                src = {"import": f"/tmp/seed/out_{pid}", "import2": f"/tmp/seed/out2_{pid}", "import3": f"/tmp/seed/out3_{pid}", "import4": f"/tmp/seed/out4_{pid}"}[mode]
                 if not os.path.exists(f"{src}/patch{k}.diff"):
                     continue
-                d = f"{SEEDED}/{pid}-{int(k) + {"import": 0, "import2": 2, "import3": 4}[mode]}"
+                d = f"{SEEDED}/{pid}-{int(k) + {"import": 0, "import2": 2, "import3": 4, "import4": 6}[mode]}"
                 os.makedirs(d, exist_ok=True)
                 shutil.copy(f"{src}/patch{k}.diff", f"{d}/patch.diff")
                 shutil.copy(f"{src}/demo{k}.py", f"{d}/demo.py")
@@ -71,7 +71,7 @@ def main():
                     m = {}
                 meta = {"property": pid, "breaks": m.get("summary", ""), "needs_to_manifest": m.get("needs", ""), "author": "independent sub-agent given only the property text and a scratch worktree"}
                 json.dump(meta, open(f"{d}/meta.json", "w"), indent=1)
-    ks = {"import": "123", "import2": "345", "import3": "567"}.get(mode, "")
+    ks = {"import": "123", "import2": "345", "import3": "567", "import4": "789"}.get(mode, "")
     todo = sorted(os.listdir(SEEDED)) if mode == "rerun" else [f"{p}-{k}" for p in sys.argv[2:] for k in ks if os.path.isdir(f"{SEEDED}/{p}-{k}")]
     from concurrent.futures import ProcessPoolExecutor
 
